@@ -84,6 +84,13 @@ CHECKS = {
             'antenna clock == stream clocks, x/y stacking, complex promotion.',
             'clock tolerance (ops+4) ulp; chirp tolerance 32 ulp of the largest phase; noise identity is relative to the same code under another chunking',
             'DESIGN.md 3/C10'),
+    'C15': ('exploration',
+            'model-based stateful testing of array request histories: closed-form alignment oracle with exact rational clock, and chunked-vs-one-shot twin (metamorphic) with seeded noise',
+            'Generated arrays (1-4 antennas, delay vectors omitted/zero/unsorted/repeated up to 40 in four container forms, 1-2 pols) and '
+            'histories of get/set_time/add_time/reset_start: with time-indexed sinusoids every output sample must equal own(t0+k/sr) + '
+            'bg(t0+(k+D-d_i)/sr); with seeded noise each observation segment must equal a same-seed twin read in one request.',
+            'request sizes exceed the largest delay; sinusoid tolerance 64 ulp of the phase; twin relation is against the same code',
+            'DESIGN.md 3/C15'),
 }
 
 ALL = [f'C{i:02d}' for i in range(1, 21)]
